@@ -91,23 +91,56 @@ func TestParserExtras(t *testing.T) {
 	}
 	js, _ := json.Marshal(f)
 	want := `{"path":"t.proto","package":"p.q","syntax":"proto3","imports":["google/api/annotations.proto"],"go_package":"","messages":[{"name":"A","fields":[` +
-		`{"name":"x","number":1,"kind":"int32","cardinality":1,"oneof":"_x","optional_keyword":true,"type_name":"","json_name":"x"},` +
-		`{"name":"s","number":2,"kind":"string","cardinality":1,"oneof":"o","optional_keyword":false,"type_name":"","json_name":"s"},` +
-		`{"name":"c","number":3,"kind":"enum","cardinality":1,"oneof":"o","optional_keyword":false,"type_name":"p.q.A.B.C","json_name":"c"},` +
-		`{"name":"m","number":4,"kind":"message","cardinality":3,"oneof":null,"optional_keyword":false,"type_name":"p.q.A.MEntry","json_name":"m"},` +
-		`{"name":"bs","number":5,"kind":"message","cardinality":3,"oneof":null,"optional_keyword":false,"type_name":"p.q.A.B","json_name":"BS"},` +
-		`{"name":"ob","number":6,"kind":"message","cardinality":1,"oneof":"_ob","optional_keyword":true,"type_name":"p.q.A.B","json_name":"ob"}],` +
+		`{"name":"x","number":1,"kind":"int32","cardinality":1,"oneof":"_x","optional_keyword":true,"type_name":"","json_name":"x","packed":false},` +
+		`{"name":"s","number":2,"kind":"string","cardinality":1,"oneof":"o","optional_keyword":false,"type_name":"","json_name":"s","packed":false},` +
+		`{"name":"c","number":3,"kind":"enum","cardinality":1,"oneof":"o","optional_keyword":false,"type_name":"p.q.A.B.C","json_name":"c","packed":false},` +
+		`{"name":"m","number":4,"kind":"message","cardinality":3,"oneof":null,"optional_keyword":false,"type_name":"p.q.A.MEntry","json_name":"m","packed":false},` +
+		`{"name":"bs","number":5,"kind":"message","cardinality":3,"oneof":null,"optional_keyword":false,"type_name":"p.q.A.B","json_name":"BS","packed":false},` +
+		`{"name":"ob","number":6,"kind":"message","cardinality":1,"oneof":"_ob","optional_keyword":true,"type_name":"p.q.A.B","json_name":"ob","packed":false}],` +
 		`"oneofs":["o","_x","_ob"],"nested":[{"name":"MEntry","fields":[` +
-		`{"name":"key","number":1,"kind":"string","cardinality":1,"oneof":null,"optional_keyword":false,"type_name":"","json_name":"key"},` +
-		`{"name":"value","number":2,"kind":"message","cardinality":1,"oneof":null,"optional_keyword":false,"type_name":"p.q.A.B","json_name":"value"}],` +
+		`{"name":"key","number":1,"kind":"string","cardinality":1,"oneof":null,"optional_keyword":false,"type_name":"","json_name":"key","packed":false},` +
+		`{"name":"value","number":2,"kind":"message","cardinality":1,"oneof":null,"optional_keyword":false,"type_name":"p.q.A.B","json_name":"value","packed":false}],` +
 		`"oneofs":null,"nested":null,"enums":null,"map_entry":true},{"name":"B","fields":[` +
-		`{"name":"self","number":1,"kind":"message","cardinality":1,"oneof":null,"optional_keyword":false,"type_name":"p.q.A.B","json_name":"self"}],` +
+		`{"name":"self","number":1,"kind":"message","cardinality":1,"oneof":null,"optional_keyword":false,"type_name":"p.q.A.B","json_name":"self","packed":false}],` +
 		`"oneofs":null,"nested":null,"enums":[{"name":"C","values":[{"name":"Z","number":0},{"name":"N","number":-1}]}],"map_entry":false}],"enums":null,"map_entry":false}],` +
 		`"enums":null,"services":[{"name":"S","methods":[{"name":"M","input":"p.q.A","output":"p.q.A.B","client_streaming":true,"server_streaming":true,` +
 		`"http":{"verb":"post","path":"/v1/x","body":"*","response_body":"","additional_bindings":[{"verb":"get","path":"/v1/y","body":"","response_body":"","additional_bindings":null},` +
-		`{"verb":"custom:HEAD","path":"/z","body":"","response_body":"","additional_bindings":null}]}},` +
-		`{"name":"N","input":"p.q.A","output":"p.q.A","client_streaming":false,"server_streaming":false,"http":null}]}]}`
+		`{"verb":"custom:HEAD","path":"/z","body":"","response_body":"","additional_bindings":null}]},"idempotency_level":"IDEMPOTENCY_UNKNOWN"},` +
+		`{"name":"N","input":"p.q.A","output":"p.q.A","client_streaming":false,"server_streaming":false,"http":null,"idempotency_level":"IDEMPOTENCY_UNKNOWN"}]}]}`
 	if string(js) != want {
 		t.Errorf("got\n%s\nwant\n%s", js, want)
+	}
+}
+
+// Imports the resolver does not know are opaque; only a field type that cannot
+// be resolved marks the field. packed and idempotency_level are read.
+func TestParserOpaqueImportsPackedIdempotency(t *testing.T) {
+	src := `syntax = "proto3"; package p; import "google/api/field_behavior.proto"; import "google/api/resource.proto";
+	import "google/type/date.proto";
+	message A { option (google.api.resource) = { type: "x/A" pattern: "a/{a}" pattern: "b/{b}" style: [DECLARATIVE_FRIENDLY, 2] };
+	  string n = 1 [(google.api.field_behavior) = REQUIRED]; repeated int32 r = 2; repeated sint64 u = 3 [packed = false];
+	  repeated string s = 4; google.type.Date d = 5; repeated E es = 6; }
+	enum E { Z = 0; }
+	service S { option (google.api.default_host) = "h"; rpc M(A) returns (A) { option idempotency_level = NO_SIDE_EFFECTS;
+	  option (google.api.method_signature) = "n"; } }`
+	f, opaque, err := ParseProtoWith("t.proto", src, func(string) (map[string]string, bool) { return nil, false })
+	if err != nil {
+		t.Fatal(err)
+	}
+	if len(opaque) != 3 {
+		t.Errorf("opaque imports: %v", opaque)
+	}
+	got := map[string]Field{}
+	for _, fl := range f.Messages[0].Fields {
+		got[fl.Name] = fl
+	}
+	if !got["r"].Packed || got["u"].Packed || got["s"].Packed || !got["es"].Packed || got["es"].Kind != "enum" {
+		t.Errorf("packed: %+v", got)
+	}
+	if got["d"].Kind != "unresolved" || got["d"].Type != "google.type.Date" || got["n"].Kind != "string" {
+		t.Errorf("unresolved: %+v %+v", got["d"], got["n"])
+	}
+	if f.Services[0].Methods[0].Idem != "NO_SIDE_EFFECTS" {
+		t.Errorf("idempotency: %+v", f.Services[0].Methods[0])
 	}
 }
